@@ -96,14 +96,17 @@ var retOrdRe = regexp.MustCompile(`#([a-z\-@A-Za-z0-9_.()*/ $]+?)\[\d+\]:`)
 var splitSufRe = regexp.MustCompile(`(\[[^\[\]=]+=-?\d+\])+$`)
 
 // baseKey: obligation name with occurrence ordinals and split suffixes removed
+var knownSufRe = regexp.MustCompile(`\{known:\d+\}$`)
+
 func baseKey(name string) string {
+	name = knownSufRe.ReplaceAllString(name, "")
 	name = splitSufRe.ReplaceAllString(name, "")
 	return retOrdRe.ReplaceAllString(name, "#$1:")
 }
 
 func explicitKind(k string) bool {
 	switch {
-	case k == "ensures", k == "invariant-init", k == "invariant-step", k == "decreases", k == "assert", k == "assigns", k == "unwind", k == "vacuity", k == "ground", k == "frozen", k == "split-exhaustive", k == "spec-termination", k == "measure":
+	case k == "ensures", k == "invariant-init", k == "invariant-step", k == "decreases", k == "assert", k == "assigns", k == "unwind", k == "vacuity", k == "ground", k == "frozen", k == "split-exhaustive", k == "spec-termination", k == "measure", k == "writers", k == "noninterference":
 		return true
 	case strings.HasPrefix(k, "requires@"):
 		return true
@@ -216,6 +219,7 @@ func runCheck(repo, verif, prop, tier string, verbose, keep bool) int {
 	// ground facts / frozen-global checks for this property
 	gobl := p.groundObligations(verif, prop, tier)
 	all = append(all, gobl...)
+	all = append(all, p.writersObligations(prop)...)
 	sort.Slice(all, func(i, j int) bool { return all[i].Name < all[j].Name })
 
 	// baseline of explicit obligations
